@@ -45,13 +45,14 @@ let read_file p = try let ic = open_in_bin p in let s = read_all ic in close_in 
 
 let () =
   let dump = ref None and fail_at = ref 0 and kind = ref "" and counter = ref None in
-  let pad = ref 0 and no_read = ref false and print_file = ref None and partial = ref false in
+  let pad = ref 0 and pad_err = ref 0 and no_read = ref false and print_file = ref None and partial = ref false in
   let rec opts = function
     | "--dump" :: f :: r -> dump := Some f; opts r
     | "--fail-at" :: k :: r -> fail_at := int_of_string k; opts r
     | "--kind" :: k :: r -> kind := k; opts r
     | "--counter" :: f :: r -> counter := Some f; opts r
     | "--pad" :: n :: r -> pad := int_of_string n; opts r
+    | "--pad-err" :: n :: r -> pad_err := int_of_string n; opts r
     | "--no-read" :: r -> no_read := true; opts r
     | "--partial" :: r -> partial := true; opts r
     | "--print-file" :: f :: r -> print_file := Some f; opts r
@@ -70,6 +71,13 @@ let () =
       else (print_string ("c" ^ (if !n >= 3 then " " ^ String.make (!n - 3) 'x' else "") ^ "\n"); n := 0)
     done
   in
+  (* diagnostics on the standard error stream (a chatty solver): written first, before anything is read or answered *)
+  if !pad_err > 0 then begin
+    let line = "c " ^ String.make 61 'e' ^ "\n" in
+    let n = ref !pad_err in
+    while !n > 0 do prerr_string line; n := !n - 64 done;
+    flush stderr
+  end;
   if !no_read then begin
     emit_pad (); flush stdout; exit 0
   end;
